@@ -2,7 +2,8 @@
 caller's output buffer (dumped by the driver) is compared with the known random payload."""
 import random
 
-from noiseref.patterns import parse_name_simple
+from noiseref import prims
+from noiseref.patterns import layout, parse_name_simple
 
 from .. import core, sessions
 from ..script import Case, gen_bytes
@@ -45,7 +46,10 @@ class CheckC19(core.Check):
     def build(self, desc):
         ci, be, path, seed = desc
         rnd = random.Random(seed)
-        name = "Noise_NN_25519_%s_SHA256" % ci
+        # handshake path: also deferred patterns, where the payload is sealed under a nonce >= 1 of a key that already
+        # sealed a static key; transport paths: also a one-way pattern
+        pat, kmsg = rnd.choice([("NN", 1), ("NX1", 1), ("XX1", 1), ("X1X1", 2), ("IK", 0), ("XX", 1)]) if path == "hs" else (rnd.choice(["NN", "N", "X", "XX"]), None)
+        name = "Noise_%s_25519_%s_SHA256" % (pat, ci)
         parsed = parse_name_simple(name)
         keys = sessions.Keys(parsed, seed)
         c = Case("pl-%s-%s-%s-%d" % (ci, be, path, seed), desc)
@@ -58,13 +62,14 @@ class CheckC19(core.Check):
                 sessions.add_pair(c, parsed, keys, res=(be, be), rng=("script:%d" % seed, "script:%d" % (seed + 1)), rec=("-", "-"), ids=(a, b))
                 pay = "gen:%d:secret%d.%d" % (plen, seed, j)
                 if path == "hs":
-                    c.op("hs_write", a, pay="-", buf=BIG, out="m0_%d" % j, flags=("q",))
-                    c.op("hs_read", b, msg="$m0_%d" % j, buf=BIG, flags=("q",))
-                    c.op("hs_write", b, pay=pay, buf=BIG, out="g%d" % j, flags=("q",))
-                    body0 = 32  # e, then the encrypted payload
-                    reader, rop, kw = a, "hs_read", {}
+                    sessions.add_handshake(c, parsed, ["-"] * parsed.nmsgs, ids=(a, b), flags=("q",), prefix="h%d_" % j, upto=kmsg)
+                    w_, r_ = (a, b) if kmsg % 2 == 0 else (b, a)
+                    c.op("hs_write", w_, pay=pay, buf=BIG, out="g%d" % j, flags=("q",))
+                    fields, hk, off = layout(parsed.pattern, parsed.psks, prims.DH_PUBLEN[parsed.dh])[kmsg]
+                    body0 = off  # key fields (with their tags), then the encrypted payload
+                    reader, rop, kw = r_, "hs_read", {}
                 else:
-                    sessions.add_handshake(c, parsed, ["-", "-"], ids=(a, b), flags=("q",), prefix="h%d_" % j)
+                    sessions.add_handshake(c, parsed, ["-"] * parsed.nmsgs, ids=(a, b), flags=("q",), prefix="h%d_" % j)
                     sessions.add_convert(c, ids=(a, b), stateless=(path == "sl"))
                     kw = {"n": 5} if path == "sl" else {}
                     c.op("st_write" if path == "sl" else "t_write", a, pay=pay, buf=BIG, out="g%d" % j, flags=("q",), **kw)
@@ -92,7 +97,7 @@ class CheckC19(core.Check):
                 subs.append((lab, alt, bufk, plen, "secret%d.%d" % (seed, j), sorted(altered)))
                 j += 1
         c.meta["subs"] = subs
-        c.info = {"key": (ci, be, path)}
+        c.info = {"key": (ci, be, path), "pat": pat}
         return c
 
     def judge(self, case, events, death):
@@ -137,5 +142,5 @@ class CheckC19(core.Check):
                 )
                 continue
             r.nontrivial = True
-            r.keys.add((ci, be, path, alt, bufk, plen))
+            r.keys.add((ci, be, path, case.info.get("pat"), alt, bufk, plen))
         return r
